@@ -29,6 +29,13 @@ RULES = [
     R(r"glyf/bytecode/instruction\.rs", r"Instruction<Display>::fmt$", [H("glyf.bytecode")]),
     R(r"tables/name\.rs", r"NameString<Display>::fmt$", [H("name")]),
     R(r"postscript/string\.rs", r"Latin1String<Display>::fmt$", [H("ps.string")]),
+    # ---- read-fonts/src/traversal.rs (experimental_traverse): the Debug printer and its budget, the generic iterators
+    R(r"src/traversal\.rs", r"DebugGuard::enter$", [M("HandIter.dbgEnter"), H("traverse.debug")]),
+    R(r"src/traversal\.rs", r"DebugGuard<Drop>::drop$", [M("HandIter.dbgLeave"), H("traverse.debug")]),
+    R(r"src/traversal\.rs", r"DebugPrint(Table|Array)<Debug>::fmt$", [M("HandIter.dbgPrint"), H("traverse.debug"), H("files")]),
+    R(r"src/traversal\.rs", r"ComputedArrayOfRecords<SomeArray>::(get|len)$", [M("HandIter.travGet"), H("traverse.debug"), H("files")]),
+    R(r"src/traversal\.rs", r"(ArrayIter|FieldIter)<Iterator>::next$|::iter$", [M("HandIter.travStep"), H("traverse.debug"), H("files")]),
+    R(r"src/traversal\.rs", r".*", [H("files"), H("traverse.debug")]),
     # ---- traversal plumbing everywhere
     R(r".*", r".*<(SomeTable|SomeRecord)>::|::traverse_\w+$|<Debug>::fmt$|<Display>::fmt$", T, TRAV),
     # ---- core
